@@ -1,5 +1,6 @@
 import GitSizer.Model.Cmds
 import GitSizer.Props.C09
+import GitSizer.Gen.Cmds
 /-! # C17 — Scanning is read-only and deterministic
     Theorems over the REGENERATED call-site table: the only subprocesses are read-only git plumbing,
     nothing else is spawned, and the only file the program can create is the hidden `--cpuprofile`
@@ -23,5 +24,61 @@ theorem only_cpuprofile_written : Gen.Cmds.fileWrites = ["git-sizer.go:mainImple
 /-- saturating sums (every census total) do not depend on the order in which objects arrive -/
 theorem totals_schedule_independent (c : Nat) {l1 l2 : List Nat} (p : l1.Perm l2) :
     GitSizer.satSum c l1 = GitSizer.satSum c l2 := GitSizer.C09.sum_order_independent c p
+
+/-! ## goroutine confinement of the aggregation state, REGENERATED (sizes/graph.go)
+
+`Gen.Cmds.scanFlow` lists every statement of `ScanRepositoryUsingGraph`, the bodies of its two
+`go func(){…}()` feeders included (branch path component "go"). -/
+
+abbrev Ev := String × String × List (String × String)
+def inFeeder (e : Ev) : Bool := e.2.2.any (fun c => c.2 == "go")
+
+/-- **the feeder goroutines only feed**: their statements, verbatim — they close their iterator,
+    send one error value, and call `AddRoot` / `RequestObject` on oids read from `roots`, `trees`,
+    `commits`, `tags`; they never touch `graph`, the path resolver, the meter or the history.
+    So every `graph.*` call and every `progressMeter.*` call is made by the one scanning goroutine
+    (single consumer): the aggregation state is confined to it. -/
+theorem feeders_only_feed :
+    (Gen.Cmds.scanFlow.filter inFeeder).map (fun e => (e.1, e.2.1)) =
+      [("go", ""), ("defer", "objIter.Close()"), ("send", "errChan"),
+       ("for", "_, root := range roots"), ("if", "!root.Walk()"), ("continue", ""),
+       ("assign-err", "err := objIter.AddRoot(root.OID())"), ("if", "err != nil"), ("return-err", "err"), ("return", "nil"),
+       ("go", ""), ("defer", "objectIter.Close()"), ("send", "errChan"),
+       ("for", "_, obj := range trees"), ("assign-err", "err := objectIter.RequestObject(obj.oid)"), ("if", "err != nil"),
+       ("return-err", "fmt.Errorf(\"requesting tree '%s': %w\", obj.oid, err)"),
+       ("for", "i := len(commits); i > 0; i--"), ("assign", "obj := commits[i-1]"),
+       ("assign-err", "err := objectIter.RequestObject(obj.oid)"), ("if", "err != nil"),
+       ("return-err", "fmt.Errorf(\"requesting commit '%s': %w\", obj.oid, err)"),
+       ("for", "_, obj := range tags"), ("assign-err", "err := objectIter.RequestObject(obj.oid)"), ("if", "err != nil"),
+       ("return-err", "fmt.Errorf(\"requesting tag '%s': %w\", obj.oid, err)"), ("return", "nil")] := by
+  decide +kernel
+
+/-- the statements of the scanning goroutine after the second feeder has been started -/
+def afterSecondFork (flow : List Ev) : List Ev :=
+  ((flow.dropWhile (fun e => e.1 != "go")).drop 1 |>.dropWhile (fun e => e.1 != "go")).filter (fun e => !inFeeder e)
+
+/-- **the slices shared with the second feeder are frozen when it starts**: after the fork the
+    scanning goroutine performs exactly one plain assignment — `commits[i-1].tree = commit.Tree`,
+    a field the feeder never uses (it reads `obj.oid` only) and which is written only after the
+    response to that very request has come back from git — and no `append` to `trees`, `commits`, `tags` -/
+theorem shared_slices_frozen_after_fork :
+    ((afterSecondFork Gen.Cmds.scanFlow).filter (fun e => e.1 == "assign" || e.1 == "decl")).map (fun e => e.2.1) =
+      ["commits[i-1].tree = commit.Tree", "refRoot, ok := root.(ReferenceRoot)"] := by
+  decide +kernel
+
+/-- and the first feeder only reads `roots`, which the scanning goroutine never assigns to -/
+theorem roots_never_assigned :
+    (Gen.Cmds.scanFlow.filter (fun e => (e.1 == "assign" || e.1 == "assign-err") && !inFeeder e)).map (fun e => e.2.1) =
+      ["graph := NewGraph(nameStyle)", "objIter, err := repo.NewObjectIter(ctx)", "errChan := make(chan error, 1)",
+       "obj, ok, err := objIter.Next()", "trees = append(trees, ObjectHeader{obj.OID, obj.ObjectSize})",
+       "commits = append(commits, CommitHeader{ObjectHeader{obj.OID, obj.ObjectSize}, git.NullOID})",
+       "tags = append(tags, ObjectHeader{obj.OID, obj.ObjectSize})", "err = <-errChan",
+       "objectIter, err := repo.NewBatchObjectIter(ctx)", "obj, ok, err := objectIter.Next()",
+       "tree, err := git.ParseTree(obj.OID, obj.Data)", "err = graph.RegisterTree(obj.OID, tree)",
+       "obj, ok, err := objectIter.Next()", "commit, err := git.ParseCommit(obj.OID, obj.Data)",
+       "commits[i-1].tree = commit.Tree", "obj, ok, err := objectIter.Next()", "tag, err := git.ParseTag(obj.OID, obj.Data)",
+       "_, ok, err := objectIter.Next()", "err = <-errChan", "refRoot, ok := root.(ReferenceRoot)"] := by
+  decide +kernel
+
 
 end GitSizer.C17
